@@ -309,3 +309,62 @@ def loops(fn, root=None):
 
 def enclosing_loops(fn, i):
     return [a for a in fn.ancestors(i) if fn.N(a)['k'] in ('ForStmt', 'WhileStmt', 'DoStmt', 'CXXForRangeStmt')]
+
+
+def event_interval(fn, events, cap=6):
+    """(min,max) number of `events` (nodes) evaluated on a path entry -> normal exit, each loop
+    body taken at most once (back edges ignored); None if no normal exit"""
+    evb = {}
+    weights = events if isinstance(events, dict) else {e: (1, 1) for e in events}
+    for e, (wl, wh) in weights.items():
+        p = fn.point_of(e)
+        if p is not None:
+            o = evb.get(p[0], (0, 0))
+            evb[p[0]] = (o[0] + wl, o[1] + wh)
+    # DFS order to find back edges
+    color, back = {}, set()
+    stack = [(fn.entry, iter([s for (s, _) in fn.succ_edges(fn.entry)]))]
+    color[fn.entry] = 1
+    order = []
+    while stack:
+        b, it = stack[-1]
+        adv = False
+        for s in it:
+            if color.get(s, 0) == 0:
+                color[s] = 1
+                stack.append((s, iter([x for (x, _) in fn.succ_edges(s)])))
+                adv = True
+                break
+            elif color[s] == 1:
+                back.add((b, s))
+        if not adv:
+            color[b] = 2
+            order.append(b)
+            stack.pop()
+    order.reverse()      # topological order of the DAG without back edges
+    ab = fn.abnormal_blocks()
+    K = 1                # number of back edges a path may take (each loop body is entered at most K+1 times)
+    IN = {(fn.entry, 0): (0, 0)}
+    res = None
+    for k in range(K + 1):
+        for b in order:
+            if (b, k) not in IN:
+                continue
+            lo, hi = IN[(b, k)]
+            c = evb.get(b, (0, 0))
+            lo, hi = min(lo + c[0], cap), min(hi + c[1], cap)
+            if b in ab:
+                continue
+            for (s, _) in fn.succ_edges(b):
+                if (b, s) in back:
+                    if k >= K:
+                        continue
+                    key = (s, k + 1)
+                elif s == fn.exit:
+                    res = (lo, hi) if res is None else (min(res[0], lo), max(res[1], hi))
+                    continue
+                else:
+                    key = (s, k)
+                old = IN.get(key)
+                IN[key] = (lo, hi) if old is None else (min(old[0], lo), max(old[1], hi))
+    return res
